@@ -102,7 +102,8 @@ pub fn run(seed: u64, ntraces: usize) {
                                      ("exec", 0, 2, 1), ("deliver_fail", 0, 0, 0), ("callback", 0, 0, 0), ("exec", 0, 2, 5), ("deliver_fail", 0, 0, 0), ("callback", 0, 0, 0), ("refund", 0, 0, 0), ("refund", 0, 0, 0),
                                      // ... and twice with 5e18 EGLD: the credit passes 2^63 and is withdrawn in full
                                      ("exec", 0, 2, 10), ("deliver_fail", 0, 0, 0), ("callback", 0, 0, 0), ("exec", 0, 2, 10), ("deliver_fail", 0, 0, 0), ("callback", 0, 0, 0), ("refund", 0, 0, 0)]; }
-        if t % 8 == 3 { queue = vec![("cmd", 0, 0, 0), ("jump", 0, 0, 0), ("exec", 0, 0, 7), ("xfer_op", 0, 0, 0), ("deliver_fail", 0, 0, 0), ("callback", 0, 0, 0), ("refund", 0, 0, 0)]; }
+        // (before the credited account withdraws, ANOTHER account calls withdrawRefundToken naming the credited account as a second argument: the endpoint takes one argument, refused)
+        if t % 8 == 3 { queue = vec![("cmd", 0, 0, 0), ("jump", 0, 0, 0), ("exec", 0, 0, 7), ("xfer_op", 0, 0, 0), ("deliver_fail", 0, 0, 0), ("callback", 0, 0, 0), ("refund_other", 0, 0, 0), ("refund", 0, 0, 0)]; }
         // a proposal with EMPTY arguments dispatched on both paths: the target receives the scheduled call, argument for argument
         if t % 8 == 5 { queue = vec![("cmd", 8, 0, 0), ("jump", 8, 0, 0), ("exec", 8, 0, 0), ("deliver_ok", 0, 0, 0), ("callback", 0, 0, 0),
                                      ("cmd", 8, 2, 0), ("exec", 8, 1, 0), ("deliver_ok", 0, 0, 0), ("callback", 0, 0, 0),
@@ -125,7 +126,7 @@ pub fn run(seed: u64, ntraces: usize) {
             let has_undelivered = pending.iter().any(|p| p.result.is_none());
             let has_delivered = pending.iter().any(|p| p.result.is_some());
             let k = match forced { Some(("cmd", _, _, _)) => 100, Some(("stray", _, _, _)) => 100, Some(("exec", _, 0, _)) => 6, Some(("exec", _, 2, _)) => 6, Some(("exec", _, _, _)) => 9,
-                        Some(("deliver_fail", _, _, _)) => 12, Some(("deliver_ok", _, _, _)) => 12, Some(("callback", _, _, _)) => 15, Some(("jump", _, _, _)) => 19, Some(("refund", _, _, _)) => 17, Some(("xfer_op", _, _, _)) => 18, _ => 0 };
+                        Some(("deliver_fail", _, _, _)) => 12, Some(("deliver_ok", _, _, _)) => 12, Some(("callback", _, _, _)) => 15, Some(("jump", _, _, _)) => 19, Some(("refund", _, _, _)) => 17, Some(("refund_other", _, _, _)) => 17, Some(("xfer_op", _, _, _)) => 18, _ => 0 };
             let k = if forced.is_some() { k }
                     else if has_delivered && r.chance(1, 3) { 15 }
                     else if has_undelivered && r.chance(1, 3) { 12 }
@@ -258,7 +259,14 @@ pub fn run(seed: u64, ntraces: usize) {
                 let mut arg = nested_buf(&tk); arg.extend_from_slice(&nonce.to_be_bytes());
                 // the endpoint takes exactly one (token, nonce): the same credit named twice in one call must be refused as a whole
                 let repeat = forced.is_none() && !credited.is_empty() && r.chance(1, 8);
-                step = w.call0(&caller, &gov, "withdrawRefundToken", if repeat { vec![arg.clone(), arg] } else { vec![arg] });
+                let other = matches!(forced, Some(("refund_other", _, _, _))) && !credited.is_empty();
+                if other { let (cu, ct, cn) = credited.last().unwrap().clone(); tk = ct; nonce = cn;
+                    caller = users.iter().find(|u| **u != cu).unwrap().clone();
+                    let mut a2 = nested_buf(&tk); a2.extend_from_slice(&nonce.to_be_bytes());
+                    step = w.call0(&caller, &gov, "withdrawRefundToken", vec![a2, cu.to_vec()]);
+                } else {
+                step = w.call0(&caller, &gov, "withdrawRefundToken", if repeat { vec![arg.clone(), arg] } else { vec![arg] }); }
+                let repeat = repeat || other;
                 opj = json!({"op": "withdrawRefund", "caller": hx(caller.as_bytes()), "token": hx(&tk), "nonce": nonce, "repeat": repeat});
             } else if k < 19 {
                 let caller = if r.chance(1, 2) { cur_op.clone() } else { anyone.clone() };
